@@ -45,4 +45,40 @@ theorem common_records_equal (sem : Sem V) (c c' : MCfg) (h : SamePhysics c c') 
   subst e
   exact ⟨rfl, rfl, rfl, rfl, rfl, rfl⟩
 
+/-- FULL-STRENGTH statement for the stored phase spaces: two runs that differ only in how they are observed hold the
+    same grid under the same time stamp.  FALSE of the code (`common_phase_spaces_full_false`): with
+    `SavePhaseSpace = 0` the record of step 0 is written before the loop, i.e. BEFORE the renormalisation of step 0,
+    with `SavePhaseSpace > 0` it is written inside the loop, after it. -/
+def CommonPhaseSpacesFull : Prop :=
+  ∀ (W : Type) (sem : Sem W) (c c' : MCfg), SamePhysics c c' → ∀ (s0 s0' : MState W),
+    (s0.grid = s0'.grid ∧ s0.rfNext = s0'.rfNext) →
+    (s0.file.recs = [] ∧ s0.file.ps = []) → (s0'.file.recs = [] ∧ s0'.file.ps = []) →
+    ∀ (k t : Nat) (g g' : W), (t, g) ∈ (runFor sem c k s0).file.ps → (t, g') ∈ (runFor sem c' k s0').file.ps → g = g'
+
+/-- proved part: every stored phase space with a time stamp after step 0, and the one of step 0 whenever both runs
+    save phase spaces inside the loop (`SavePhaseSpace > 0` in both) -/
+theorem common_phase_spaces_equal_partial (sem : Sem V) (c c' : MCfg) (h : SamePhysics c c') (s0 s0' : MState V)
+    (hs : s0.grid = s0'.grid ∧ s0.rfNext = s0'.rfNext)
+    (h0 : s0.file.recs = [] ∧ s0.file.ps = []) (h0' : s0'.file.recs = [] ∧ s0'.file.ps = [])
+    (k t : Nat) (g g' : V) (hps : (t, g) ∈ (runFor sem c k s0).file.ps) (hps' : (t, g') ∈ (runFor sem c' k s0').file.ps)
+    (ht : 0 < t ∨ (c.h5save ≠ 0 ∧ c'.h5save ≠ 0)) : g = g' := by
+  obtain ⟨r, hr, hrt, hrg⟩ := runFor_ps_rec sem c k s0 h0 t g hps (by rcases ht with h | h; exact Or.inl h; exact Or.inr h.1)
+  obtain ⟨r', hr', hrt', hrg'⟩ := runFor_ps_rec sem c' k s0' h0' t g' hps' (by rcases ht with h | h; exact Or.inl h; exact Or.inr h.2)
+  have e := (common_records_equal sem c c' h s0 s0' hs ⟨h0.1, h0'.1⟩ k r r' hr hr' (hrt.trans hrt'.symm)).2.2.2.2.2
+  rw [← hrg, ← hrg', e]
+
+/-- witness: `RenormalizeCharge = 1`, one step, output at every step; `SavePhaseSpace = 0` stores the start grid 15
+    under time stamp 0, `SavePhaseSpace = 1` stores the renormalised grid 10 under the same time stamp -/
+theorem common_phase_spaces_full_false : ¬ CommonPhaseSpacesFull := by
+  intro h
+  have h1 : (0, 15) ∈ (runFor cexSem cexCfg 1 (startState 15 0 [] 0)).file.ps := by
+    simp [runFor_eq, iterate, final_ps, body_ps, init_ps, init_step, init_grid, init_xp, wr, isOut, isSaveAll,
+      cexCfg, startState, cexSem]
+  have h2 : (0, 10) ∈ (runFor cexSem { cexCfg with h5save := 1 } 1 (startState 15 0 [] 0)).file.ps := by
+    simp [runFor_eq, iterate, final_ps, body_ps, init_ps, init_step, init_grid, init_xp, Nat.mod_one, wr, isOut, isSaveAll,
+      gridR, isRenorm, cexCfg, startState, cexSem]
+  have := h Nat cexSem cexCfg { cexCfg with h5save := 1 } ⟨rfl, rfl, rfl⟩ (startState 15 0 [] 0) (startState 15 0 [] 0)
+    ⟨rfl, rfl⟩ ⟨rfl, rfl⟩ ⟨rfl, rfl⟩ 1 0 15 10 h1 h2
+  exact absurd this (by decide)
+
 end Inovesa.Props.C12
